@@ -175,13 +175,14 @@ fn planners() -> [Pl; 4] { [Pl::Rrt, Pl::Connect, Pl::Star, Pl::Prm] }
 /// single queries over worlds x planners x parameter corners (radius above and below the step)
 fn fam_paths(o: &mut Out, props: &str, seed0: u64, deadline: Instant) {
     let sp = space();
-    let mut k = 0u64;
     'outer: for wk in 0..3u64 {
-        for pl in planners() {
-            for (step, radius) in [(0.5, 1.5), (1.0, 0.8), (0.3, 2.0), (0.54, 0.4), (0.33, 0.25)] {      // 0.54 / 0.33: not multiples of the motion-check resolution
+        for (pi, pl) in planners().into_iter().enumerate() {
+            for (qi, (step, radius)) in [(0.5, 1.5), (1.0, 0.8), (0.3, 2.0), (0.54, 0.4), (0.33, 0.25)].into_iter().enumerate() {      // 0.54 / 0.33: not multiples of the motion-check resolution
                 for ds in 0..3u64 {
                     if Instant::now() > deadline { break 'outer; }
-                    let seed = seed0.wrapping_mul(1000) + k; k += 1;
+                    // seeds are a function of the scenario, not of the order of the loops (adding scenarios must not move the others)
+                    let k = if qi < 3 { ((wk * 4 + pi as u64) * 3 + qi as u64) * 3 + ds } else { 5000 + ((wk * 4 + pi as u64) * 2 + (qi as u64 - 3)) * 3 + ds };
+                    let seed = seed0.wrapping_mul(1000) + k;
                     let w = world(wk);
                     let pdx = pd(&sp, (1.0 + ds as f64 * 0.3, 1.0), (9.0, 8.5 - ds as f64), 0.5);
                     let mut inst = Inst::new(pl, step, radius, 0.1, seed);
@@ -195,16 +196,38 @@ fn fam_paths(o: &mut Out, props: &str, seed0: u64, deadline: Instant) {
     }
 }
 
+/// many short RRT* runs with a search radius well above the step in walled worlds: choose-parent and rewiring create long edges
+/// next to thin obstacles, which is where an unchecked or mis-attributed motion check shows (C01, C03, C05, C15, C17)
+fn fam_star_dense(o: &mut Out, props: &str, seed0: u64, deadline: Instant) {
+    let sp = space();
+    'outer: for ds in 0..24u64 {
+        for wk in [0u64, 2, 4] {
+            for (qi, (step, radius)) in [(0.3, 2.0), (0.5, 1.5), (0.4, 2.5)].into_iter().enumerate() {
+                if Instant::now() > deadline { break 'outer; }
+                let seed = seed0.wrapping_mul(1000) + 20_000 + (ds * 3 + wk) * 3 + qi as u64;
+                let w = world(wk);
+                let pdx = pd(&sp, (1.0 + (ds % 5) as f64 * 0.2, 1.0 + (ds % 3) as f64), (9.0, 8.5 - (ds % 4) as f64), 0.5);
+                let mut inst = Inst::new(Pl::Star, step, radius, 0.1, seed);
+                inst.setup(pdx.clone(), w.clone());
+                if let Ok(path) = inst.solve(Duration::from_millis(300)) {
+                    check_path(o, props, &format!("rrt-star dense world{} step{} radius{}", wk, step, radius), seed, &sp, &w, &pdx, &path, Inst::limit(Pl::Star, step, radius));
+                }
+            }
+        }
+    }
+}
+
 /// call histories: re-setup with another problem / stricter checker, repeated solve, PRM problem replacement
 fn fam_histories(o: &mut Out, props: &str, seed0: u64, deadline: Instant) {
     let sp = space();
-    let mut k = 0u64;
     // ds outermost: every (variant, planner) pair is visited once before any pair is visited a second time (the budget may end early)
     'outer: for ds in 0..3u64 {
         for variant in 0..10u64 {
-            for pl in planners() {
+            for (pi, pl) in planners().into_iter().enumerate() {
                 if Instant::now() > deadline { break 'outer; }
-                let seed = seed0.wrapping_mul(1000) + 500 + k; k += 1;
+                // seeds are a function of the scenario (variants 0-5 keep the seeds they always had)
+                let k = if variant < 6 { (pi as u64 * 6 + variant) * 3 + ds } else { 300 + (pi as u64 * 4 + (variant - 6)) * 3 + ds };
+                let seed = seed0.wrapping_mul(1000) + 500 + k;
                 let (step, radius) = (0.6, 1.2);
                 let w_open = world(3);
                 let w_wall = world(1);
@@ -514,6 +537,7 @@ fn main() {
             if prop == "C18" { fam_prm_reference(&mut o, seed); }
             fam_histories(&mut o, &p, seed, half);
             fam_paths(&mut o, &p, seed, deadline);
+            fam_star_dense(&mut o, &p, seed, deadline + Duration::from_secs_f64(budget / 3.0));
             let n = PANICS.load(std::sync::atomic::Ordering::SeqCst);
             if n > 0 && (prop == "C08" || prop == "C15" || prop == "C02") { o.report("panic", seed, format!("{} planner call(s) on well-formed inputs panicked", n)); }
         }
